@@ -1524,6 +1524,84 @@ def c10_search(ctx, failing, corr, broken):
                         'inputs': [co.hex_of(*x) for x in vals], 'outputs': outs, 'what': '%s: %s' % (e['id'], bad)})
             if len(out) >= 5:
                 break
+    out += c10_rebuild_search(ctx, rng, broken)
+    return out
+
+
+def c10_rebuild_search(ctx, rng, broken):
+    """Q(q.Magnitude(), q.Direction()) against q, on the real code, for every vector quantity class that has a
+    (scalar, direction) constructor: within 8 ulps of the largest component, slot for slot."""
+    by_id = ctx.by_id
+    dirs = {'Direction': 3, 'PlanarDirection': 2}
+    cases = []
+    for e in ctx.model:
+        m = e['meta']
+        if m['kind'] != 'ctor' or len(m['args']) != 2 or m.get('unit'):
+            continue
+        a, b = m['args']
+
+        def scalar(n_):
+            ci = ctx.classes['class_index'].get(n_)
+            return bool(ci) and ctx.classes['classes'][ci - 1]['comps'] == 1
+        if b in dirs and scalar(a):
+            order = 'sd'
+        elif a in dirs and scalar(b):
+            order = 'ds'
+        else:
+            continue
+        mag = by_id.get('%s::Magnitude()' % m['cls'])
+        dr = by_id.get('%s::Direction()' % m['cls']) or by_id.get('%s::PlanarDirection()' % m['cls'])
+        if mag is None or dr is None:
+            continue
+        cases.append((e, mag, dr, order, dirs[b if order == 'sd' else a]))
+    out = []
+    stage1, meta = [], []
+    for (e, mag, dr, order, n) in cases:
+        for fmt in (32, 64, 80):
+            if str(fmt) not in e['instances'][0]['fmts']:
+                continue
+            for _ in range(3 if not broken else 10):
+                lead = rng.randrange(-20, 20)
+                vals = []
+                for i in range(n):
+                    s_, mm, ee = co.random_value(rng, fmt, 'moderate')
+                    vals.append((s_, mm or 1, ee + lead))
+                hx = [co.hex_of(*x) for x in vals]
+                stage1.append((mag['index'], fmt, hx, []))
+                stage1.append((dr['index'], fmt, hx, []))
+                meta.append((e, fmt, vals, order, n))
+    res1, _, _ = ctx.run_native(stage1)
+    stage2, meta2 = [], []
+    for k, (e, fmt, vals, order, n) in enumerate(meta):
+        rm, rd = res1[2 * k], res1[2 * k + 1]
+        if not rm or not rd or rm.get('error') or rd.get('error'):
+            continue
+        mg = [o['t'] for o in rm['outs'] if o['l'].rsplit(':', 1)[1].startswith('num')]
+        dc = [o['t'] for o in rd['outs'] if o['l'].rsplit(':', 1)[1].startswith('num')]
+        if len(mg) != 1 or len(dc) != n:
+            continue
+        args = mg + dc if order == 'sd' else dc + mg
+        stage2.append((e['index'], fmt, args, []))
+        meta2.append((e, fmt, vals))
+    res2, _, _ = ctx.run_native(stage2)
+    for (e, fmt, vals), r in zip(meta2, res2):
+        if not r or r.get('error'):
+            continue
+        got = [co.frac_of_canon(c) for (l, c) in num_outs(r) if c not in ('nan', 'inf', '-inf')]
+        want = [(-1 if s_ else 1) * Fraction(mm) * Fraction(2) ** ee for (s_, mm, ee) in vals]
+        if len(got) != len(want):
+            continue
+        p_ = co.FMT[fmt][0]
+        scale = max(abs(w) for w in want)
+        for i, (g, w) in enumerate(zip(got, want)):
+            if abs(g - w) > 8 * scale * Fraction(1, 2 ** (p_ - 1)):
+                out.append({'kind': 'c10-rebuild', 'entry': e['id'], 'fmt': fmt, 'index': e['index'],
+                            'inputs': [co.hex_of(*x) for x in vals], 'slot': i,
+                            'what': '%s(q.Magnitude(), q.Direction()) for q = %s gives %.17g in slot %d instead of %.17g' % (
+                                e['meta']['cls'], [float(w_) for w_ in want], float(g), i, float(w))})
+                break
+        if len(out) >= 4:
+            break
     return out
 
 
@@ -2369,7 +2447,7 @@ SPECS = {
     'C10': {
         'id': 'C10', 'level': 'proof',
         'lean_targets': ['PhQVerif.Audit.C10'],
-        'checkers': [('C10dir', 'quantityEntries'), ('C10mag', 'quantityEntries')],
+        'checkers': [('C10dir', 'quantityEntries'), ('C10mag', 'quantityEntries'), ('C10scale', 'quantityEntries')],
         'correspond': quantity_corr(lambda e: produces_direction(e) or e['meta'].get('name') == 'Magnitude', 10, 6, 200),
         'search': c10_search,
         'always_search': True,
